@@ -7,9 +7,10 @@ are exact in binary64, `definitions` only in drafts 4-7 and `$defs` only in 2019
 
 Sets (per dialect d):
   A    every leaf alone
-  D1   every template over the operand leaves B (|B| = 8; if/then/else over 4)
+  D1   every template over the operand leaves B (|B| = 8; if/then/else over 4); templates include $ref to
+       definitions/$defs, to a plain-name anchor, to "#" and to the location of a subschema under each applicator
   K1   core templates over B3 (unary) / B2 (binary)                      -- operands of depth 2
-  D2   every unary template over K1, core binary templates over K1xB2 u B2xK1
+  D2   every unary template (except the refloc_* ones) over K1, core binary templates over K1xB2 u B2xK1
   UE1  {X, unevaluatedProperties:U}, X = in-place applicator (allOf anyOf oneOf not if/then/else $ref
        dependentSchemas) over property-annotating atoms PA                 (2019-09, 2020-12)
   UI1  same for unevaluatedItems over item-annotating atoms IA
@@ -17,6 +18,7 @@ Sets (per dialect d):
   D2T  core binary templates over K1 x K1
   D3   core unary templates over D2core (= core unary over K1, core binary over K1xB2 u B2xK1)
   UE2/UI2  X of in-place depth 2 (one operand an in-place combination of 4 atoms)
+Nested templates are made consistent by fixrefs() (pointer rewriting / hoisting of definitions, unique anchors).
 """
 import itertools, json
 
@@ -87,7 +89,8 @@ def anchored(d, S, name):
 
 def _frag(path):
     from urllib.parse import quote
-    return "".join("/" + quote(str(k).replace("~", "~0").replace("/", "~1"), safe="$") for k in path)
+    # percent-encode only what a URI fragment cannot contain literally (e.g. "^"); sub-delims such as "$" and "+" stay
+    return "".join("/" + quote(str(k).replace("~", "~0").replace("/", "~1"), safe="$+!&'()*,;=:@") for k in path)
 
 
 def fixrefs(d, schema):
@@ -368,12 +371,12 @@ def uneval_family(d, kind, deep):
         kw = "unevaluatedProperties"
         atoms = [{"properties": {"a": True}}, {"properties": {"a": {"type": "integer"}}}, {"properties": {"b": True}},
                  {"patternProperties": {"^a": True}}, {"additionalProperties": {"type": "integer"}}, {"required": ["a"]},
-                 True, False, {"unevaluatedProperties": True}]
+                 True, False, {"unevaluatedProperties": True}, {"properties": {"a": True}, "required": ["b"]}]
         small = [{"properties": {"a": True}}, {"properties": {"b": {"type": "integer"}}}, {"required": ["a"]}, False]
     else:
         kw = "unevaluatedItems"
         atoms = [{pk: [True]}, {pk: [{"type": "integer"}]}, {pk: [True, True]}, {"items": True}, {"contains": {"type": "integer"}},
-                 {"minItems": 1}, True, False, {"unevaluatedItems": True}]
+                 {"minItems": 1}, True, False, {"unevaluatedItems": True}, {pk: [True], "minItems": 2}]
         if d == "2019":
             atoms.append({"items": [True], "additionalItems": {"type": "integer"}})
         else:
@@ -410,9 +413,6 @@ def uneval_family(d, kind, deep):
             r = dict(x)
             r[kw] = U
             yield r
-            if not deep and "allOf" not in x and kw == "unevaluatedProperties":
-                # the same keyword one level down must NOT see the annotations of its cousins
-                pass
 
 
 def schemas(d, tier):
@@ -446,7 +446,7 @@ def schemas(d, tier):
             k1seen.add(k)
             K1.append(s)
     mixed = [(k, b) for k in K1 for b in B2] + [(b, k) for k in K1 for b in B2]
-    yield from emit("D2", apply_unary(UT, list(UT), K1))
+    yield from emit("D2", apply_unary(UT, [n for n in UT if not n.startswith("refloc_")], K1))
     yield from emit("D2", apply_binary(BT, CORE_BINARY, mixed))
     yield from emit("UE1", uneval_family(d, "ue", False))
     yield from emit("UI1", uneval_family(d, "ui", False))
